@@ -1160,7 +1160,11 @@ func (e *CEnv) call(n *ast.CallExpr) *Val {
 		fv := e.eval(n.Args[0])
 		name := e.strArg(n.Args[1])
 		rv := e.eval(n.Args[2])
-		if fv.Cl == nil || fv.Cl.Fn == nil || len(fv.Cl.Binds) != 1 || !strings.HasSuffix(strings.TrimSuffix(fv.Cl.Fn.Name(), "$bound"), name) || !strings.HasSuffix(fv.Cl.Fn.Name(), "$bound") {
+		if fv.Cl == nil || fv.Cl.Fn == nil || len(fv.Cl.Binds) != 1 || !strings.HasSuffix(fv.Cl.Fn.Name(), "$bound") {
+			return boolVal(tFalse)
+		}
+		// (the name the contracts know the method by: a renamed unexported method keeps its old key)
+		if !strings.HasSuffix(strings.TrimSuffix(fv.Cl.Fn.Name(), "$bound"), name) && !strings.HasSuffix(strings.TrimSuffix(fnKey(fv.Cl.Fn), "$bound"), "."+name) {
 			return boolVal(tFalse)
 		}
 		return boolVal(eq(e.ptrTerm(fv.Cl.Binds[0]), e.ptrTerm(rv)))
